@@ -6,4 +6,5 @@ def main : IO UInt32 :=
   runDriver (fun family params lines =>
     match family with
     | "c12" => C12.check params lines
+    | "c12fork" => C01.check params lines
     | _ => { bad := [s!"unknown family {family}"] })
